@@ -6,5 +6,6 @@ CONSTANTS
   Kinds = {"if", "while", "whiletrue", "for", "with", "withsupp", "try"}
   GenVars = {"x", "y"}
   SimpleKinds = {"assign", "use", "call", "return", "raise", "break", "continue"}
+  Shape = "any"
 INVARIANT EmitDone
 CHECK_DEADLOCK FALSE
